@@ -287,9 +287,14 @@ impl PrimitiveMagneticSymmetrySearch {
         for mops1 in magnetic_operations.iter() {
             for mops2 in magnetic_operations.iter() {
                 let mops12 = mops1.clone() * mops2.clone();
-                let diff = (translations_map[&(mops12.operation.rotation, mops12.time_reversal)]
-                    - mops12.operation.translation)
-                    .map(|e| e - e.round());
+                // The product may be missing when loose tolerances accept a set that is not closed
+                let translation12 = match translations_map
+                    .get(&(mops12.operation.rotation, mops12.time_reversal))
+                {
+                    Some(translation) => translation,
+                    None => return false,
+                };
+                let diff = (translation12 - mops12.operation.translation).map(|e| e - e.round());
                 if lattice.cartesian_coords(&diff).norm() > symprec {
                     return false;
                 }
